@@ -2027,9 +2027,15 @@ fn process_dom_node<T: Write>(
                     pending_noempty(input, move |_, cs| {
                         // There can be extra nodes which aren't ListItem (like whitespace text
                         // nodes).  We need to filter those out to avoid messing up the rendering.
+                        // Stray content (invalid, but it happens) is kept as an item of its
+                        // own, as in a <ul>, rather than being lost.
                         let cs = cs
                             .into_iter()
-                            .filter(|n| matches!(n.info, RenderNodeInfo::ListItem(..)))
+                            .filter_map(|n| match n.info {
+                                RenderNodeInfo::ListItem(..) => Some(n),
+                                _ if n.is_shallow_empty() => None,
+                                _ => Some(RenderNode::new(RenderNodeInfo::ListItem(vec![n]))),
+                            })
                             .collect();
                         Some(RenderNode::new_styled(Ol(start, cs), computed))
                     })
@@ -2038,10 +2044,12 @@ fn process_dom_node<T: Write>(
                     pending_noempty(input, move |_, cs| {
                         // There can be extra nodes which aren't Dt or Dd (like whitespace text
                         // nodes).  We need to filter those out to avoid messing up the rendering.
+                        // Stray content is kept rather than lost.
                         let cs = cs
                             .into_iter()
                             .filter(|n| {
                                 matches!(n.info, RenderNodeInfo::Dt(..) | RenderNodeInfo::Dd(..))
+                                    || !n.is_shallow_empty()
                             })
                             .collect();
                         Some(RenderNode::new_styled(Dl(cs), computed))
